@@ -97,6 +97,9 @@ Section Spec.
         end
     | LExit a => SExit (match a with Some n => b_set_last (u8 n) s | None => s end)
     | LSet o b => errexit_check stk (b_set_last 0 (b_upd (set_opt o b) s))
+    | LAssign a =>
+        (* a command without command name: status of the last command substitution, else 0 *)
+        errexit_check stk (b_set_last (match a with Some n => u8 n | None => 0 end) s)
     | LCall f =>
         match lookup f (funs (b_sh s)) with
         | None => errexit_check stk (b_set_last 127 s)   (* command not found *)
@@ -242,6 +245,7 @@ Section Spec.
     | For _ n b => sfor n b stk 0 (loop_enter s)
     | Case arms => scase arms false (Some 0) stk s
     | FunDef f body => errexit_check stk (b_set_last 0 (b_upd (define f body) s))
+    | Redir _ c => rec c stk s     (* the redirections succeed; the command decides about errexit as without them *)
     end.
 
   (** one iteration of execute_while_or_until *)
